@@ -5,14 +5,15 @@
    X:<line lengths>" (checks/c19.py compares impl == model on the full answer, uses the verdict, and re-judges the
    implementation's answer against the same declaration list when the two differ). *)
 
-(* which variant of the outline code the model follows: the deployed one; VERIF_C19_FIXES = six characters 0/1 in
-   the order of Symbols.fixes (range fnspan hull alldecl undecl ownfile) selects another one (used to check an older
-   or partially repaired copy of the code) *)
+(* which variant of the outline code the model follows: the deployed one; VERIF_C19_FIXES = nine characters 0/1 in
+   the order of Symbols.fixes (range fnspan hull alldecl undecl ownfile wsdecl wsnested wsgmem) selects another one
+   (used to check an older or partially repaired copy of the code; six characters: the last three are 0) *)
 let fixed_sel : fixes =
   (match Sys.getenv_opt "VERIF_C19_FIXES" with
-   | Some v when String.length v = 6 ->
-     let b i = v.[i] = '1' in
-     { fx_range = b 0; fx_fnspan = b 1; fx_hull = b 2; fx_alldecl = b 3; fx_undecl = b 4; fx_ownfile = b 5 }
+   | Some v when String.length v = 6 || String.length v = 9 ->
+     let b i = i < String.length v && v.[i] = '1' in
+     { fx_range = b 0; fx_fnspan = b 1; fx_hull = b 2; fx_alldecl = b 3; fx_undecl = b 4; fx_ownfile = b 5;
+       fx_wsdecl = b 6; fx_wsnested = b 7; fx_wsgmem = b 8 }
    | _ -> deployed)
 
 let zi (x : z) = dec_of_z x
@@ -61,9 +62,11 @@ let analyse_file (content : n list) : fres =
   | Ok _ -> Invalid
 
 let max_symbols = 200
-let kind_c = function DLocal -> "L" | DGlobal -> "G" | DFunc -> "F"
+let kind_c = function DLocal -> "L" | DGlobal -> "G" | DFunc -> "F" | DLocalFn -> "N"
 let cls_name = function ClsForeign -> "foreign_member" | ClsRewrite -> "child_range_rewrite" | ClsShadowed -> "shadowed_top_local"
   | ClsAssignedFunc -> "assigned_function_range" | ClsMemberLost -> "member_lost" | ClsMemberUndeclared -> "member_of_undeclared" | ClsUnexplained -> "unexplained"
+  | ClsMemberDepth2 -> "member_depth2" | ClsWsRedeclared -> "ws_redeclared_local" | ClsWsNested -> "ws_nested_local_function"
+  | ClsWsGMember -> "ws_G_member"
 let decl_s (d : decl) = Printf.sprintf "%s:%s:%s" (kind_c d.d_kind) (hex_of_bytes d.d_key) (String.concat ";" (List.map rawloc_s d.d_locs))
 
 let run_case (fx : fixes) (line : string) : string =
@@ -104,7 +107,7 @@ let run_case (fx : fixes) (line : string) : string =
           | _, Some k ->
             verdicts := Printf.sprintf "%s:%d:%s:%s" (match v with Missing -> "missing" | _ -> "badrange") i (decl_s d) (cls_name k) :: !verdicts;
             add_cls (cls_name k)
-          | _, None -> ()) (judge_all lens gi.st gi.decls (if fx.fx_ownfile then [] else foreign_globals orig mlog (nat_of_int i)) fx);
+          | _, None -> ()) (judge_all lens gi.st gi.decls (if fx.fx_ownfile then [] else foreign_globals orig mlog (nat_of_int i)) (fuel_of_bytes gi.content) gi.blk fx);
         dcols := Printf.sprintf "D%d=%s X%d=%s" i (String.concat "," (List.map decl_s gi.decls)) i
                    (String.concat "," (List.map zi lens)) :: !dcols;
         Some ("docsym=" ^ Buffer.contents b)
@@ -113,16 +116,14 @@ let run_case (fx : fixes) (line : string) : string =
         let all = List.concat (List.map (fun (i, ws) ->
           let (rel, _) = files.(i) in
           List.map (fun (w : wsym) ->
-            Printf.sprintf "%s/%d@%s@%s" (hex_of_bytes w.w_name) (if w.w_fn then 12 else 13) rel (range_s w.w_loc)) ws) per) in
+            Printf.sprintf "%s/%d@%s@%s" (hex_of_bytes ((if w.w_g then b_G_dot else []) @ w.w_name)) (if w.w_fn then 12 else 13) rel (range_s w.w_loc)) ws) per) in
         if List.length all > max_symbols then too_big := true;
         let ans = List.concat (List.map (fun (i, ws) -> wentries_of (nat_of_int i) ws) per) in
         let per_decls = List.mapi (fun i _ -> (nat_of_int i, (g i).decls)) (Array.to_list files) in
         List.iter (fun ((f, d), ok) ->
           if not ok then begin
-            let (fi, ds_i) = List.nth per_decls (int_of_nat f) in
-            let base = (match String.index_opt (string_of_bytes d.d_key) '.' with Some p -> String.sub (string_of_bytes d.d_key) 0 p | None -> string_of_bytes d.d_key) in
-            let declared = List.exists (fun (d0 : decl) -> d0.d_kind <> DFunc && string_of_bytes d0.d_key = base) ds_i in
-            let k = (match d.d_kind with DFunc -> if declared || fx.fx_undecl then "member_lost" else "member_of_undeclared" | _ -> "unexplained") in
+            let gf = g (int_of_nat f) in
+            let k = cls_name (explain_ws gf.st gf.decls (fuel_of_bytes gf.content) gf.blk fx d) in
             verdicts := Printf.sprintf "wsmissing:%d:%s:%s" (int_of_nat f) (decl_s d) k :: !verdicts;
             add_cls k
           end) (ws_judge q per_decls ans);
@@ -155,7 +156,7 @@ let run_big (line : string) : string =
              | None -> assert false) in
   let all = List.concat (List.mapi (fun i (rel, _) ->
     List.map (fun (w : wsym) ->
-      Printf.sprintf "%s/%d@%s@%s" (hex_of_bytes w.w_name) (if w.w_fn then 12 else 13) rel (range_s w.w_loc))
+      Printf.sprintf "%s/%d@%s@%s" (hex_of_bytes ((if w.w_g then b_G_dot else []) @ w.w_name)) (if w.w_fn then 12 else 13) rel (range_s w.w_loc))
       (file_wsyms fx (g i).st)) (Array.to_list files)) in
   let all = List.sort compare all in
   let total = List.length all in
